@@ -53,8 +53,8 @@ Theorem C01_doh_get_exact : forall k raw m,
   doh_get k raw = DohMsg m ->
   b64_decode (doh_value k raw) = Some m /\ length m <= b64_decoded_len (length (doh_value k raw)).
 Proof.
-  intros k raw m H. unfold doh_get in H. destruct (doh_value k raw) as [|c v] eqn:V; [discriminate|].
-  destruct (65535 <? _)%N; [discriminate|]. destruct (b64_decode (c :: v)) as [m'|] eqn:D; [|discriminate].
+  intros k raw m H. unfold doh_get, doh_get_value in H. destruct (doh_value k raw) as [|c v] eqn:V; [discriminate|].
+  destruct (N.ltb 65535 _); [discriminate|]. destruct (b64_decode (c :: v)) as [m'|] eqn:D; [|discriminate].
   inversion H; subst. split; [reflexivity|]. now apply b64_decode_fits.
 Qed.
 Print Assumptions C01_doh_get_exact.
@@ -63,7 +63,7 @@ Print Assumptions C01_doh_get_exact.
 Theorem C01_doh_get_roundtrip : forall m, byte_list m -> m <> [] -> (N.of_nat (length m) <= 65535)%N ->
   doh_get DohNetHttp (b64_text m) = DohMsg m.
 Proof.
-  intros m B Hne L. unfold doh_get, doh_value.
+  intros m B Hne L. unfold doh_get, doh_get_value, doh_value.
   destruct (b64_text m) as [|c t] eqn:T.
   - exfalso. pose proof (b64_text_length m B) as E. rewrite T in E. cbn in E. destruct m; [now apply Hne|unfold b64_decoded_len in E; cbn in E; discriminate].
   - rewrite <- T. rewrite (b64_text_length m B).
@@ -79,7 +79,7 @@ Theorem C01_doh_get_fasthttp_linebreaks : forall m k, byte_list m -> m <> [] ->
   (N.of_nat (b64_decoded_len (length (b64_text m) + k)) <= 65535)%N ->
   doh_get DohFastHttp (b64_text m ++ concat (repeat pct_lf k)) = DohMsg m.
 Proof.
-  intros m k B Hne L. unfold doh_get, doh_value.
+  intros m k B Hne L. unfold doh_get, doh_get_value, doh_value.
   pose proof (b64_enc_sextets (length m) m (le_n _) B) as S.
   assert (pct_decode (b64_text m ++ concat (repeat pct_lf k)) = b64_text m ++ repeat 10%N k) as P
     by (unfold b64_text; apply (pct_decode_text_lfs _ k S)).
@@ -113,6 +113,22 @@ Proof.
 Qed.
 Print Assumptions C01_doh_get_pinned_refuted.
 
+(* the query string: whatever pairs (empty ones included) stand in front of the dns pair - none of them with the key
+   "dns" - and whatever stands behind it, the handler sees the value of the dns pair (net/http: raw; fasthttp: percent-
+   decoded, keys compared after decoding).  [join_amp] writes the pairs with '&' between them. *)
+Theorem C01_doh_query_decorated : forall ps v qs,
+  Forall amp_free (ps ++ (dns_key ++ 61%N :: v) :: qs) ->
+  ((forall p, In p ps -> key_of p <> dns_key) ->
+   doh_query_value DohNetHttp (join_amp (ps ++ (dns_key ++ 61%N :: v) :: qs)) = v) /\
+  ((forall p, In p ps -> pct_decode (key_of p) <> dns_key) ->
+   doh_query_value DohFastHttp (join_amp (ps ++ (dns_key ++ 61%N :: v) :: qs)) = pct_decode v).
+Proof.
+  intros ps v qs F. unfold doh_query_value.
+  rewrite split_join; [|destruct ps; discriminate|exact F].
+  split; intros H; [now apply nethttp_value_decorated|now apply fasthttp_value_decorated].
+Qed.
+Print Assumptions C01_doh_query_decorated.
+
 (* non-vacuity: a compression-pointer loop is rejected (not looped on); a valid query is accepted *)
 Example C01_example_loop :
   unpack_msg [0;1;1;0;0;1;0;0;0;0;0;0; 192;12; 0;1;0;1]%N = Err ETooManyPtr.
@@ -125,4 +141,13 @@ Example C01_example_doh_get :
   doh_get DohNetHttp [65; 37; 48; 65]%N = DohReject /\            (* "A%0A" raw: '%' is no base64url character *)
   doh_get DohFastHttp [65; 66; 37; 48; 65]%N = DohMsg [0]%N /\     (* "AB%0A" percent-decoded: "AB" + LF *)
   doh_get DohFastHttp [65]%N = DohReject /\ doh_get DohFastHttp [65; 66; 61]%N = DohReject.   (* 1 character; padding *)
+Proof. vm_compute. auto. Qed.
+Example C01_example_doh_query :
+  (* "&a=b&&dns=AB&x" *)
+  doh_query_value DohNetHttp [38; 97; 61; 98; 38; 38; 100; 110; 115; 61; 65; 66; 38; 120]%N = [65; 66]%N /\
+  (* "%64ns=AB": the key is compared after decoding on fasthttp only *)
+  doh_query_value DohFastHttp [37; 54; 52; 110; 115; 61; 65; 66]%N = [65; 66]%N /\
+  doh_query_value DohNetHttp [37; 54; 52; 110; 115; 61; 65; 66]%N = []%N /\
+  (* "dns&dns=AB": the first dns pair has no value *)
+  doh_query_value DohNetHttp [100; 110; 115; 38; 100; 110; 115; 61; 65; 66]%N = []%N.
 Proof. vm_compute. auto. Qed.
